@@ -8,7 +8,7 @@ EXTENDS XlLogic, Json
 CONSTANTS Depth, Sample
 VARIABLE st
 Conds == {[t |-> "cond", i |-> 1], [t |-> "cond", i |-> 2], [t |-> "cond", i |-> 3]}
-Leaves == {[t |-> "num", n |-> 7], [t |-> "num", n |-> 9], [t |-> "fail"], [t |-> "na"], [t |-> "blank"], [t |-> "text"]}
+Leaves == {[t |-> "num", n |-> 7], [t |-> "num", n |-> 9], [t |-> "fail"], [t |-> "na"], [t |-> "blank"], [t |-> "text"], [t |-> "failref"]}
 If3(c, a, b) == [t |-> "if3", c |-> c, a |-> a, b |-> b]
 If2(c, a) == [t |-> "if2", c |-> c, a |-> a]
 Ifs(ps) == [t |-> "ifs", ps |-> ps]
@@ -20,7 +20,7 @@ Over(S) == {If3(c, a, b) : c \in Conds, a \in S, b \in S} \cup {If2(c, a) : c \i
            \cup {IfErr(x, f) : x \in S, f \in S}
 T1 == Over(Leaves)
 \* the nested child of a depth-2 nest: all of T1, or (Sample) the nests over two leaves only
-InnerSet(sample) == IF sample THEN Over({[t |-> "num", n |-> 7], [t |-> "fail"]}) ELSE T1
+InnerSet(sample) == IF sample THEN Over({[t |-> "num", n |-> 7], [t |-> "failref"]}) ELSE T1
 OuterLeaves == IF Sample THEN {[t |-> "num", n |-> 9], [t |-> "na"]} ELSE Leaves
 \* exactly one nested child
 \* (an operator with a parameter: TLC evaluates zero-arity constant definitions eagerly at start-up, which costs minutes for the full set)
